@@ -19,7 +19,7 @@ ASSUMPTIONS = ['post-processing randomness (synthetic-data rounding, reverse_dat
                'FactoredInference iteration counts capped (post-processing only); environment adapters as in C05']
 PLAN = {
     'quick': dict(cases=48, budget_s=100, case_timeout=900, min_cases=16),
-    'thorough': dict(cases=1200, budget_s=3000, case_timeout=1800, min_cases=250),
+    'thorough': dict(cases=600, budget_s=1200, case_timeout=1800, min_cases=100),
 }
 
 
